@@ -16,6 +16,8 @@ number):
 * the slice `hash[:6]` never panics and the result has exactly six characters (`hashIndex_six_chars`);
 * it contains no `-` (`hashIndex_no_dash`), so task names are injective in (hash, retry) with NO side condition
   (`task_names_injective`) — "distinct indexes never share a task name" now rests only on the hashes being distinct;
+* for a structure hash ≥ 1000 all six characters are in `a–z2–7` (`hash_is_name_safe`: valid in Pod names and label
+  values); below 1000 — and only there — the hash contains base32 padding `=` (`short_hash_has_padding`);
 * the six characters read only the first four decimal digits, the fourth only up to division by four
   (`hashEnc_reads_four_digits`, `hashEnc_of_code`): there are at most 4110 different identities
   (`identity_space_bound`), whatever the structure hash is — the quantitative root cause of finding F3;
@@ -49,6 +51,23 @@ theorem task_names_injective (name : String) (u1 u2 : Nat) (r1 r2 : Int)
     (e : generateTaskName name (hashEnc u1) r1 = generateTaskName name (hashEnc u2) r2) :
     hashEnc u1 = hashEnc u2 ∧ r1 = r2 :=
   C14.generateTaskName_injective name _ _ r1 r2 (hashIndex_no_dash u1) (hashIndex_no_dash u2) e
+
+/-- **hash_is_name_safe**: for a structure hash of at least four decimal digits (every uint64 except 0 … 999) the six
+characters all come from the lower-case base32 alphabet `a–z2–7` — they are valid in a Pod name (DNS-1123) and in a
+label value, which is where `GenerateTaskName` and `NewPod` put them. -/
+theorem hash_is_name_safe (u : Nat) (h : 1000 ≤ u) : ∀ c ∈ (hashEnc u).toList, c ∈ b32Alphabet := by
+  simp only [hashEnc, String.toList_ofList, hashEncChars]
+  exact b32First6_alphabet _ (fun b hb => by have := decBytes_range u b hb; unfold Digit at this; omega)
+    (decBytes_length_ge4 u h)
+
+/-- … and ONLY for those: a structure hash below 1000 yields base32 padding, `=`, inside the task name and the label
+value (`"g4===="` for 7), which the API server refuses (the Job then ends in AdmissionError).  One index in 2^64/1000:
+recorded as a precise boundary of "each index has its own identity", not as a finding. -/
+theorem short_hash_has_padding (u : Nat) (h : u < 1000) : '=' ∈ (hashEnc u).toList := by
+  simp only [hashEnc, String.toList_ofList, hashEncChars]
+  exact b32First6_padding _ (decBytes_ne_nil u) (decBytes_length_le3 u h)
+
+example : hashEnc 7 = "g4====" := by decide
 
 /-- the identity reads the first four decimal digits of the structure hash only. -/
 theorem hashEnc_reads_four_digits (u : Nat) : hashEncChars u = b32First6 ((decBytes u).take 4) :=
